@@ -729,4 +729,221 @@ theorem exec_safe (n : Nat) (ih : AllSpec n) (ihs : SSpec n) (b : Base) (s : St)
       exact ihs.resolved s1 f args hg1 hk.wf hv hio.2
     | _ => exact absurd rfl hs
 
+/-! ## The Go builtins -/
+
+theorem NoNil.table {s s' : St} (h : NoNil s) (h1 : s'.data = s.data) (h2 : s'.linear = s.linear) (h3 : s'.addr = s.addr)
+    (h4 : s'.suspended = s.suspended) (h5 : s'.lazies = s.lazies) : NoNil s' := h.same h1 h2 h3 h4 h5
+
+theorem builtin_safe (n : Nat) (ih : AllSpec n) (ihs : SSpec n) (name : String) (args : List Val) (s : St) (hg : NoNil s)
+    (hw : WF s) (hpc : s.pc = -1) (ha : ∀ a ∈ args, vok s.fns.length a = true) : Safe (builtin (n + 1) name args) s := by
+  intro r s' hex
+  unfold VM.builtin at hex
+  split at hex
+  · simp only [run_bind, run_modify, run_pure] at hex; cases hex; exact res_ok _ (hg.same rfl rfl rfl rfl rfl)
+  split at hex
+  · simp only [run_bind, run_modify, run_pure] at hex; cases hex; exact res_ok _ (hg.same rfl rfl rfl rfl rfl)
+  split at hex
+  · split at hex
+    · exact ihs.force _ s hg hw r s' hex
+    · simp only [run_pure] at hex; cases hex; exact res_ok _ hg
+    · rw [Sim.run_err] at hex; cases hex; exact res_err
+  split at hex
+  · split at hex
+    · rename_i id
+      rw [run_bind, run_get] at hex
+      dsimp only at hex
+      split at hex
+      · rw [Sim.run_err] at hex; cases hex; exact res_err
+      · rename_i lz hlz
+        split at hex
+        · simp only [run_pure] at hex; cases hex; exact res_ok _ hg
+        · rcases hq : quoteE lz.e s.heap with ⟨w, h'⟩
+          simp only [hq, run_bind, run_set, run_pure] at hex
+          cases hex
+          exact res_ok _ (hg.same rfl rfl rfl rfl rfl)
+    · simp only [run_pure] at hex; cases hex; exact res_ok _ hg
+    · rw [Sim.run_err] at hex; cases hex; exact res_err
+  split at hex
+  · split at hex
+    · rename_i f coll
+      split at hex
+      · rw [Sim.run_err] at hex; cases hex; exact res_err
+      · rw [run_bind, run_get] at hex
+        dsimp only at hex
+        have hf := ha f (by simp)
+        have hc := ha coll (by simp)
+        split at hex
+        · rename_i rr
+          exact ihs.apply f _ s hg hw hpc hf (heap_get_vok hw rr) r s' hex
+        · rename_i a b
+          split at hex
+          · rename_i xs hxs
+            exact ihs.apply f xs s hg hw hpc hf (listToArray_vok _ xs hxs hc) r s' hex
+          · rw [Sim.run_err] at hex; cases hex; exact res_err
+        · rw [Sim.run_err] at hex; cases hex; exact res_err
+    · rw [Sim.run_err] at hex; cases hex; exact res_err
+  split at hex
+  · split at hex
+    · rename_i f coll
+      split at hex
+      · rw [Sim.run_err] at hex; cases hex; exact res_err
+      · have hf := ha f (by simp)
+        have hc := ha coll (by simp)
+        split at hex
+        · rename_i rr
+          rw [run_bind, run_get] at hex
+          dsimp only at hex
+          refine Safe.bind (ihs.mapArr f rr 0 _ s hg hw hpc hf) (fun vs s1 _ hg1 => ?_) r s' hex
+          intro r2 s2 h2
+          rw [run_bind, run_get] at h2
+          dsimp only at h2
+          simp only [run_bind, run_set, run_pure] at h2
+          cases h2
+          exact res_ok _ (hg1.same rfl rfl rfl rfl rfl)
+        · rename_i a b
+          exact ihs.mapList f _ s hg hw hpc hf hc r s' hex
+        · rw [Sim.run_err] at hex; cases hex; exact res_err
+    · rw [Sim.run_err] at hex; cases hex; exact res_err
+  · rw [run_bind, run_get] at hex
+    dsimp only at hex
+    split at hex
+    · simp only [run_bind, run_set, run_pure] at hex
+      cases hex
+      exact res_ok _ (hg.same rfl rfl rfl rfl rfl)
+    · rw [Sim.run_err] at hex; cases hex; exact res_err
+
+/-! ## `applyFn`, `mapArr`, `mapList` -/
+
+theorem applyWrap_nonil (fo : FnObj) : ∀ (args : List Val) (s : St) (i : Nat), NoNil s →
+    NoNil (args.foldl (fun (p : St × Nat) v =>
+      if fo.isLazyCallArg p.2 then
+        ({ p.1 with lazies := p.1.lazies ++ [({ e := .nilLit, stack := [], curfunc := 0, value := some v, isValue := true } : LazyObj)],
+                    data := some (.lazy p.1.lazies.length) :: p.1.data }, p.2 + 1)
+      else ({ p.1 with data := some v :: p.1.data }, p.2 + 1)) (s, i)).1
+  | [], s, i, hg => hg
+  | v :: rest, s, i, hg => by
+    simp only [List.foldl_cons]
+    split
+    · refine applyWrap_nonil fo rest _ (i + 1) ?_
+      refine ⟨⟨VMSafe.allSome_cons hg.good.data, hg.good.linear, hg.good.addr, hg.good.susp, ?_⟩, hg.lin, ?_⟩
+      · intro z hz
+        rcases List.mem_append.mp hz with hm | hm
+        · exact hg.good.lazies z hm
+        · simp only [List.mem_cons, List.mem_nil_iff, or_false] at hm; subst hm; exact VMSafe.allSome_nil
+      · intro z hz hv
+        rcases List.mem_append.mp hz with hm | hm
+        · exact hg.lz z hm hv
+        · simp only [List.mem_cons, List.mem_nil_iff, or_false] at hm; subst hm; cases hv
+    · exact applyWrap_nonil fo rest _ (i + 1) (hg.push v)
+
+theorem apply_safe (n : Nat) (ih : AllSpec n) (ihs : SSpec n) (f : Val) (args : List Val) (s : St) (hg : NoNil s) (hw : WF s)
+    (hpc : s.pc = -1) (hvf : vok s.fns.length f = true) (ha : ∀ a ∈ args, vok s.fns.length a = true) :
+    Safe (applyFn (n + 1) f args) s := by
+  intro r s' hex
+  unfold VM.applyFn at hex
+  split at hex
+  · rename_i name
+    exact ihs.builtin name args s hg hw hpc ha r s' hex
+  · rename_i fid
+    simp only [vok, decide_eq_true_eq] at hvf
+    rw [run_bind, run_capture] at hex
+    dsimp only at hex
+    rw [run_bind, run_modify] at hex
+    dsimp only at hex
+    rw [run_bind, run_get] at hex
+    dsimp only at hex
+    rw [run_bind, run_set] at hex
+    dsimp only at hex
+    rw [run_bind, run_get] at hex
+    dsimp only at hex
+    have hw1 : WF { s with pc := -2 } := hw.setPc _
+    have hg1 : NoNil { s with pc := -2 } := hg.same rfl rfl rfl rfl rfl
+    obtain ⟨hw2, d2, f2, l2, li2, a2, c2, p2, su2⟩ := applyWrap_spec (fnOf { s with pc := -2 } fid) args { s with pc := -2 } 0 hw1 ha
+    have hg2 := applyWrap_nonil (fnOf { s with pc := -2 } fid) args { s with pc := -2 } 0 hg1
+    generalize hs2 : (args.foldl (fun (p : St × Nat) v =>
+      if (fnOf { s with pc := -2 } fid).isLazyCallArg p.2 then
+        ({ p.1 with lazies := p.1.lazies ++ [({ e := .nilLit, stack := [], curfunc := 0, value := some v, isValue := true } : LazyObj)],
+                    data := some (.lazy p.1.lazies.length) :: p.1.data }, p.2 + 1)
+      else ({ p.1 with data := some v :: p.1.data }, p.2 + 1)) ({ s with pc := -2 }, 0)).1 = s2 at hex hw2 d2 f2 l2 li2 a2 c2 p2 su2 hg2
+    rw [run_bind, run_set] at hex
+    rcases hm : (do callFunction fid args.length; run n : M Val).run s2 with ⟨r0, s4⟩
+    rw [hm] at hex
+    have hinner : r0 ≠ .error .panic ∧ (∀ w, r0 = .ok w → NoNil s4) := by
+      rw [run_bind] at hm
+      rcases hc : (callFunction fid args.length).run s2 with ⟨r1, s3⟩
+      rw [hc] at hm
+      obtain ⟨hn1, hg3⟩ := callFunction_safe' fid args.length s2 hg2 r1 s3 hc
+      cases r1 with
+      | error e =>
+        cases hm
+        cases e with
+        | err => exact ⟨(by intro h; cases h), fun w hw' => (by cases hw')⟩
+        | panic => exact absurd rfl hn1
+        | timeout => exact ⟨(by intro h; cases h), fun w hw' => (by cases hw')⟩
+      | ok u =>
+        simp only at hm
+        have hid2 : fid < s2.fns.length := by rw [f2]; exact hvf.2
+        have hgd := hw2.fns fid hvf.1 hid2
+        obtain ⟨c1, c2', c3, c4, c5, c6, c7, hw3, c9⟩ := callFunction_ok fid args.length s2 s3 (s.data.map cellOf) hw2 hgd d2 hc
+        have hid3 : fid < s3.fns.length := by rw [c6]; exact hid2
+        obtain ⟨ann, hV, hact⟩ := actOK_of_good (hw3.fns fid hvf.1 hid3) hid3
+        have hfo : fnOf s3 fid = fnOf s2 fid := by simp only [VM.fnOf, c6]
+        let b : Base := ⟨s.data, s.linear, s.addr, s.curfunc, -2, false⟩
+        have hrun : Running b s3 ⟨fid, ann, s.data.map cellOf, s.linear.length, s.addr.length + 1⟩ [] := by
+          refine ⟨c1, by rw [c2']; exact Int.le_refl 0, ?_, hact _ _ _, ⟨rfl, rfl, by rw [c3, c2, p2, a2]; exact (if_neg Bool.false_ne_true).mpr rfl⟩,
+            by rw [c4, li2]; exact List.suffix_refl _⟩
+          apply inv_entry _ _ hV
+          · show s3.pc.toNat = 0; rw [c2']; rfl
+          · show s3.data.map cellOf = List.replicate (fnOf s3 fid).params.length Cell.val ++ _
+            rw [c9, hfo]
+          · show s3.linear.length = _; rw [c4, li2]
+          · show s3.addr.length = _; rw [c3, a2]; simp
+        exact ihs.run b s3 _ (hg3 u rfl) hw3 hrun hg.lin rfl rfl r0 s4 hm
+    obtain ⟨hn, hok⟩ := hinner
+    cases r0 with
+    | ok w => simp only [run_pure] at hex; cases hex; exact res_ok _ (hok w rfl)
+    | error e =>
+      cases e with
+      | err => simp only [run_bind, run_restore, run_throw] at hex; cases hex; exact res_err
+      | panic => exact absurd rfl hn
+      | timeout => simp only [run_throw] at hex; cases hex; exact res_timeout
+  · rw [Sim.run_err] at hex; cases hex; exact res_err
+
+theorem mapArr_safe (n : Nat) (ih : AllSpec n) (ihs : SSpec n) (f : Val) (r i k : Nat) (s : St) (hg : NoNil s) (hw : WF s)
+    (hpc : s.pc = -1) (hvf : vok s.fns.length f = true) : Safe (mapArr (n + 1) f r i k) s := by
+  intro r0 s' hex
+  unfold VM.mapArr at hex
+  split at hex
+  · simp only [run_pure] at hex; cases hex; exact res_ok _ hg
+  · rw [run_bind, run_get] at hex
+    dsimp only at hex
+    have harg : ∀ a ∈ [(s.heap.get r).getD i Val.nil], vok s.fns.length a = true := by
+      intro a hav
+      simp only [List.mem_cons, List.mem_nil_iff, or_false] at hav
+      subst hav
+      rw [List.getD_eq_getElem?_getD]
+      cases hgt : (s.heap.get r)[i]? with
+      | none => rfl
+      | some x => exact heap_get_vok hw r x (List.mem_of_getElem? hgt)
+    refine Safe.bind (ihs.apply f _ s hg hw hpc hvf harg) (fun v s1 ha hg1 => ?_) r0 s' hex
+    obtain ⟨hk1, hv1⟩ := ih.apply f _ s s1 v hw hpc hvf harg ha
+    refine Safe.bind (ihs.mapArr f r (i + 1) k s1 hg1 hk1.wf (hk1.same.pc.trans hpc) (kept_vok_mono hk1 hvf)) (fun ws s2 _ hg2 => ?_)
+    exact Safe.pure _ hg2
+
+theorem mapList_safe (n : Nat) (ih : AllSpec n) (ihs : SSpec n) (f l : Val) (s : St) (hg : NoNil s) (hw : WF s) (hpc : s.pc = -1)
+    (hvf : vok s.fns.length f = true) (hvl : vok s.fns.length l = true) : Safe (mapList (n + 1) f l) s := by
+  intro r0 s' hex
+  unfold VM.mapList at hex
+  split at hex
+  · simp only [run_pure] at hex; cases hex; exact res_ok _ hg
+  · rename_i a b
+    simp only [vok, Bool.and_eq_true] at hvl
+    have harg : ∀ x ∈ [a], vok s.fns.length x = true := fun x hx => by simp at hx; subst hx; exact hvl.1
+    refine Safe.bind (ihs.apply f [a] s hg hw hpc hvf harg) (fun w s1 ha hg1 => ?_) r0 s' hex
+    obtain ⟨hk1, hv1⟩ := ih.apply f [a] s s1 w hw hpc hvf harg ha
+    refine Safe.bind (ihs.mapList f b s1 hg1 hk1.wf (hk1.same.pc.trans hpc) (kept_vok_mono hk1 hvf) (kept_vok_mono hk1 hvl.2))
+      (fun t s2 _ hg2 => ?_)
+    exact Safe.pure _ hg2
+  · rw [Sim.run_err] at hex; cases hex; exact res_err
+
 end ZygoVerif.RunInv
